@@ -146,7 +146,7 @@ class SMCSampler(MCMCSampler):
                     beta_max = beta_try
             beta_star = beta_min
 
-            if self.adaptive_min_step:
+            if self.adaptive_min_step and beta_star < 1.0:
                 min_step = min_step * (1 - beta_prev) / (1 - beta_star)
             beta = max(beta_star, beta_prev + min_step)
             beta = min(beta, 1.0)
